@@ -47,7 +47,7 @@ def records(wd, tier):
     items, g = cf.event_family(wd, tier, three_world=8 if tier == "quick" else 40, reflexive=12 if tier == "quick" else 40)
     groups = cf.run_y0(wd, "star", items, "c07")
     vs, st, by_id = cf.judge(wd, groups, seeds=(1, 2))
-    return vs, st, by_id, g
+    return vs, st, by_id, g, groups
 
 
 def run(tier: str) -> int:
@@ -55,8 +55,9 @@ def run(tier: str) -> int:
     wd = workdir(PID)
     mc = cf_mc(wd)[0]
     mc2 = idstar_mc(wd, 60 if tier == "quick" else 20)[0]
-    vs, st, by_id, g = records(wd, tier)
+    vs, st, by_id, g, groups = records(wd, tier)
     cf.report(out, vs, by_id, skip={"vocabulary"})
+    hist = cf.report_history(out, groups)
     # diagnostic cross-tabulation with the reference ID*: where y0 is wrong, does the reference answer or refuse?
     xtab = {}
     for i, v in vs.items():
@@ -70,6 +71,7 @@ def run(tier: str) -> int:
                       "with the event's values, is evaluated by TLC in functional models with shared noise on all base assignments "
                       "and compared with P(event); non-trivial = distinct (graph, event) with an answer on a graph with a bidirected edge",
                       {"design_mc": [mc, mc2], "y0_outcome_vs_reference_idstar": xtab})
+    cov.update(hist)
     cov["states"] += mc["distinct"] + mc2["distinct"]
     cov["transitions"] += mc["generated"] + mc2["generated"]
     return out.finish("model_checking", cov, [
